@@ -55,11 +55,14 @@ const (
 	kCloseOk
 	kCloseFail
 	kCmdExpireInBackoff
+	kNSFailAfterHandshake
+	kCmdUnsignedThenOk
+	kCmdForeignSessionThenOk
 	kNumOps
 )
 
 var c18OpNames = []string{"new-session-ok", "new-session-fail-status", "new-session-fail-password", "new-session-fail-icv", "new-session-discovery-ok", "new-session-no-supported-suite",
-	"cmd-ok", "cmd-code-c1-body-missing", "cmd-nobody-code-c1", "cmd-busy-then-ok", "cmd-busy-busy-ok", "cmd-garbage-then-ok", "cmd-lost-reply", "cmd-context-expires", "cmd-unserialisable", "cmd-truncated-body", "close-ok", "close-fail", "cmd-context-ends-during-backoff"}
+	"cmd-ok", "cmd-code-c1-body-missing", "cmd-nobody-code-c1", "cmd-busy-then-ok", "cmd-busy-busy-ok", "cmd-garbage-then-ok", "cmd-lost-reply", "cmd-context-expires", "cmd-unserialisable", "cmd-truncated-body", "close-ok", "close-fail", "cmd-context-ends-during-backoff", "new-session-fail-after-handshake", "cmd-unsigned-reply-then-ok", "cmd-foreign-session-reply-then-ok"}
 
 // real-socket op codes
 const (
@@ -192,7 +195,24 @@ func c18One(c c18Case) (string, string) {
 	}
 	for _, op := range c.Ops {
 		switch op {
-		case kNSOk, kNSFailStatus, kNSFailPassword, kNSFailICV, kNSDiscoveryOk, kNSNoSuite:
+		case kCmdUnsignedThenOk, kCmdForeignSessionThenOk:
+			forged := env.Raw("forged", func(t *env.Transport, rx *ref.Rx) []byte {
+				if rx == nil || rx.Msg == nil {
+					return nil
+				}
+				msg := ref.ResponseTo(rx.Msg, 0xD4, nil)
+				if rx.Sess == nil || !rx.Sess.Active {
+					return ref.BuildPacket(ref.PTIPMI, false, 0, 0, []byte{1, 2, 3}, nil) // not a message: undecodable
+				}
+				sx := rx.Sess
+				sx.OutSeq++
+				if op == kCmdUnsignedThenOk {
+					return ref.BuildPacket(ref.PTIPMI, false, sx.HS.SIDM, sx.OutSeq, msg, nil)
+				}
+				return ref.BuildPacket(ref.PTIPMI, true, sx.HS.SIDM+5, sx.OutSeq, ref.AESEncrypt(sx.K2, sx.NextIV(), msg), sx.Integ)
+			})
+			runCmd("Get Chassis Status", &ipmi.GetChassisStatusCmd{}, []env.Answer{forged}, false)
+		case kNSOk, kNSFailStatus, kNSFailPassword, kNSFailICV, kNSDiscoveryOk, kNSNoSuite, kNSFailAfterHandshake:
 			if sess != nil {
 				continue
 			}
@@ -214,6 +234,9 @@ func c18One(c c18Case) (string, string) {
 				opts.CipherSuites = nil
 			case kNSNoSuite:
 				opts.CipherSuites = []ipmi.CipherSuite{suiteOf(ref.Suite{Auth: 2, Integ: 2, Conf: 1}), suiteOf(ref.Suite{Auth: 2, Integ: 3, Conf: 1})}
+			case kNSFailAfterHandshake:
+				// the handshake completes, then the library cannot build its layers
+				opts.CipherSuites = []ipmi.CipherSuite{suiteOf(ref.Suite{Auth: 1, Integ: 1, Conf: 0})}
 			}
 			s, err := w.Conn.NewV2Session(w.Ctx, opts)
 			exp.add("bmc_session_open_attempts_total{}", 1)
@@ -299,6 +322,17 @@ func c18ValidResponse(t *env.Transport, rx *ref.Rx, d []byte) (byte, bool) {
 	p, err := ref.ParsePacket(d, authLen)
 	if err != nil || p.PType != ref.PTIPMI {
 		return 0, false
+	}
+	if rx.Sess != nil && rx.Sess.Active {
+		// in a session only an authentic packet for the console's session ID is a valid response
+		if p.SID != rx.Sess.HS.SIDM {
+			return 0, false
+		}
+		if rx.Sess.Integ != nil {
+			if !p.Authed || string(rx.Sess.Integ(p.AuthRange)) != string(p.AuthCode) {
+				return 0, false
+			}
+		}
 	}
 	plain := p.Payload
 	if p.Encrypted {
